@@ -20,4 +20,6 @@ QUICK_SLICES = {'protocol-version': [4, 5], 'managed-class': [0]}
 
 
 def units(ctx):
-    return contract_units("C09", MODULES, ctx, slices=QUICK_SLICES if ctx["tier"] == "quick" else None)
+    from vf import facts
+    us = contract_units("C09", MODULES, ctx, slices=QUICK_SLICES if ctx["tier"] == "quick" else None)
+    return us + facts.units(["store_durability"], ctx)
